@@ -316,3 +316,79 @@ impl Params {
         })
     }
 }
+
+// ---------------------------------------------------------------- random-source wrappers
+
+/// a random source that returns the same bytes (cyclically) on every request
+pub struct FixedRng(pub Vec<u8>);
+impl rand_core::TryRng for FixedRng {
+    type Error = core::convert::Infallible;
+    fn try_next_u32(&mut self) -> Result<u32, Self::Error> {
+        let mut b = [0u8; 4];
+        self.try_fill_bytes(&mut b)?;
+        Ok(u32::from_le_bytes(b))
+    }
+    fn try_next_u64(&mut self) -> Result<u64, Self::Error> {
+        let mut b = [0u8; 8];
+        self.try_fill_bytes(&mut b)?;
+        Ok(u64::from_le_bytes(b))
+    }
+    fn try_fill_bytes(&mut self, dst: &mut [u8]) -> Result<(), Self::Error> {
+        for (i, d) in dst.iter_mut().enumerate() {
+            *d = if self.0.is_empty() { 0 } else { self.0[i % self.0.len()] };
+        }
+        Ok(())
+    }
+}
+impl rand_core::TryCryptoRng for FixedRng {}
+
+/// records the answers of an inner source on the first pass and replays them afterwards
+pub struct ReplayRng<'a, R: rand_core::CryptoRng> {
+    pub inner: &'a mut R,
+    pub tape: Vec<Vec<u8>>,
+    pub pos: usize,
+    pub replaying: bool,
+}
+impl<'a, R: rand_core::CryptoRng> ReplayRng<'a, R> {
+    pub fn new(inner: &'a mut R) -> Self {
+        ReplayRng { inner, tape: vec![], pos: 0, replaying: false }
+    }
+    pub fn rewind(&mut self) {
+        self.replaying = true;
+        self.pos = 0;
+    }
+}
+impl<R: rand_core::CryptoRng> rand_core::TryRng for ReplayRng<'_, R> {
+    type Error = core::convert::Infallible;
+    fn try_next_u32(&mut self) -> Result<u32, Self::Error> {
+        let mut b = [0u8; 4];
+        self.try_fill_bytes(&mut b)?;
+        Ok(u32::from_le_bytes(b))
+    }
+    fn try_next_u64(&mut self) -> Result<u64, Self::Error> {
+        let mut b = [0u8; 8];
+        self.try_fill_bytes(&mut b)?;
+        Ok(u64::from_le_bytes(b))
+    }
+    fn try_fill_bytes(&mut self, dst: &mut [u8]) -> Result<(), Self::Error> {
+        if self.replaying && self.pos < self.tape.len() && self.tape[self.pos].len() == dst.len() {
+            dst.copy_from_slice(&self.tape[self.pos]);
+            self.pos += 1;
+        } else {
+            use rand_core::Rng;
+            self.inner.fill_bytes(dst);
+            self.tape.push(dst.to_vec());
+            self.pos += 1;
+        }
+        Ok(())
+    }
+}
+impl<R: rand_core::CryptoRng> rand_core::TryCryptoRng for ReplayRng<'_, R> {}
+
+pub fn scalar_from_bytes<C: Ciphersuite>(b: &[u8]) -> Option<Scalar<C>> {
+    let ser: <<C::Group as Group>::Field as Field>::Serialization = b.try_into().ok()?;
+    <<C::Group as Group>::Field as Field>::deserialize(&ser).ok()
+}
+pub fn randomizer_scalar<C: Ciphersuite>(r: &frost_rerandomized::Randomizer<C>) -> Scalar<C> {
+    scalar_from_bytes::<C>(&r.serialize()).expect("randomizer encodings decode")
+}
